@@ -692,14 +692,16 @@ class OpenAPI(Specification):
             method_meta = utils.get_meta(method.method)
             annotated_spec: OpenApiMeta = method_meta.get('openapi_spec', {})
 
-            component_name_prefix = annotated_spec.get('component_name_prefix') or component_name_prefix
+            method_component_prefix = annotated_spec.get('component_name_prefix') or component_name_prefix
             status_errors_map = self._extract_errors(method)
             default_status_errors = status_errors_map.pop(HTTP_DEFAULT_STATUS, [])
 
-            errors_schema = self._extract_errors_schema(spec, method, status_errors_map, component_name_prefix)
+            errors_schema = self._extract_errors_schema(spec, method, status_errors_map, method_component_prefix)
 
-            request_schema = self._extract_request_schema(spec, method, component_name_prefix)
-            response_schema = self._extract_response_schema(spec, method, default_status_errors, component_name_prefix)
+            request_schema = self._extract_request_schema(spec, method, method_component_prefix)
+            response_schema = self._extract_response_schema(
+                spec, method, default_status_errors, method_component_prefix,
+            )
 
             summary, description = self._extract_description(method)
             tags = self._extract_tags(method)
